@@ -226,6 +226,16 @@ def runOp (ctx : Ctx) (line : String) : Ctx × List String :=
       | some a, some m => (ctx, [S (Spec.render4 (Spec.play a m))])
       | _, _ => (ctx, ["unparsable"])
     | _ => (ctx, ["badargs"])
+  | "spec_succ" =>
+    -- spec_succ <fenA (4 fields)> | <fenB (4 fields)> : the legal moves of A (by the rules) that lead to B
+    match (rest.splitOn " | ") with
+    | [fa, fb] =>
+      match Spec.fenLoose fa.toList, Spec.fenLoose fb.toList with
+      | some a, some b =>
+        let hits := (Spec.legalListFast a).filter (fun m => Spec.render4 (Spec.play a m) == Spec.render4 b)
+        (ctx, [specMoves hits])
+      | _, _ => (ctx, ["unparsable"])
+    | _ => (ctx, ["badargs"])
   | "spec_line" =>
     -- spec_line <m1,m2,...|-> <fen…> : index of the first move that is not legal by the rules, or `ok`
     match args with
